@@ -231,6 +231,51 @@ fn check_clamp(c: &ClampCase, obs: &mut Obs) -> Result<(), Fail> {
     Ok(())
 }
 
+/// Keys made by the library's own generators (`SecretKey::new`, `SecretKeyExtended::new`) from a seeded ChaCha stream:
+/// a generated extended key must have the required bit pattern (its bytes are accepted by `from_bytes`), and both kinds
+/// must sign like the reference does for the same key bytes.
+fn check_generated(c: &GenCase, obs: &mut Obs) -> Result<(), Fail> {
+    use rand_core::SeedableRng;
+    let mut seed = [0u8; 32];
+    seed.copy_from_slice(&c.seed);
+    let rng = rand_chacha::ChaCha20Rng::from_seed(seed);
+    if c.extended {
+        let k = SecretKeyExtended::new(rng);
+        let pk = k.public_key();
+        let sig = k.sign(&c.msg);
+        let bytes = unsafe { SecretKeyExtended::leak_into_bytes(k) };
+        let ok = bytes[0] & 7 == 0 && bytes[31] & 0b1100_0000 == 0b0100_0000;
+        pv_ensure!(ok, "generated-extended-key-lacks-required-bits", "SecretKeyExtended::new produced byte0 = {:#010b}, byte31 = {:#010b}", bytes[0], bytes[31]);
+        pv_ensure!(SecretKeyExtended::from_bytes(bytes).is_ok(), "generated-extended-key-refused-by-from_bytes", "bytes {}", hex::encode(bytes));
+        let esk = ExpandedSecretKey::from_bytes(&bytes);
+        let vk = VerifyingKey::from(&esk);
+        pv_ensure!(pk.as_ref() == vk.as_bytes(), "generated-key:public-key-differs-from-reference", "extended key {}", hex::encode(bytes));
+        let rsig = raw_sign::<Sha512>(&esk, &c.msg, &vk);
+        pv_ensure!(sig.as_ref() == rsig.to_bytes().as_slice(), "generated-key:signature-differs-from-reference", "extended key {}", hex::encode(bytes));
+        pv_ensure!(pk.verify(&c.msg, &sig), "generated-key:own-signature-rejected", "extended key {}", hex::encode(bytes));
+        obs.class("generated:extended");
+    } else {
+        let k = SecretKey::new(rng);
+        let pk = k.public_key();
+        let sig = k.sign(&c.msg);
+        let bytes = unsafe { SecretKey::leak_into_bytes(k) };
+        let sk = SigningKey::from_bytes(&bytes);
+        pv_ensure!(pk.as_ref() == sk.verifying_key().as_bytes(), "generated-key:public-key-differs-from-reference", "key {}", hex::encode(bytes));
+        pv_ensure!(sig.as_ref() == sk.sign(&c.msg).to_bytes().as_slice(), "generated-key:signature-differs-from-reference", "key {}", hex::encode(bytes));
+        pv_ensure!(pk.verify(&c.msg, &sig), "generated-key:own-signature-rejected", "key {}", hex::encode(bytes));
+        obs.class("generated:standard");
+    }
+    obs.nontrivial();
+    Ok(())
+}
+
+#[derive(Debug, Clone, Serialize, Deserialize)]
+pub struct GenCase {
+    seed: Vec<u8>,
+    extended: bool,
+    msg: Vec<u8>,
+}
+
 pub fn run(s: &Session) {
     s.set_rule(
         "case = random 32-byte secret key or random 64-byte extended key (clamped by the harness), message \
@@ -250,6 +295,13 @@ pub fn run(s: &Session) {
         s.pick(60_000, 1_000_000),
         || prop::collection::vec(any::<u8>(), 64..=64).prop_map(|bytes| ClampCase { bytes }),
         check_clamp,
+    );
+
+    s.forall(
+        "generated-keys",
+        s.pick(20_000, 400_000),
+        || (prop::collection::vec(any::<u8>(), 32..=32), any::<bool>(), prop::collection::vec(any::<u8>(), 0..80)).prop_map(|(seed, extended, msg)| GenCase { seed, extended, msg }),
+        check_generated,
     );
 
     if !s.replaying() {
